@@ -26,7 +26,7 @@ def jty(t):
         return "JTOpt (%s)" % jty(t.e)
     if k == "union":
         return "JTUnion %s [%s]" % ("true" if t.has_null else "false",
-                                    "; ".join("(%s, %s)" % (cstr(tag_of(c)), jty(c)) for c in t.cases))
+                                    "; ".join("(%s, %s)" % (cstr(tg), jty(c)) for tg, c in zip(tags_of(t), t.cases)))
     if k == "vec":
         return "JTVec (%s)" % jty(t.e)
     if k == "fixvec":
@@ -50,6 +50,11 @@ def tag_of(c):
                                                            "complexfloat", "complexdouble")):
         return c.p
     return c.spell
+
+
+def tags_of(t):
+    """tags of a union: the explicit ones of the `!union {tag: type}` syntax, else the derived ones"""
+    return list(t.xtags) if getattr(t, "xtags", None) else [tag_of(c) for c in t.cases]
 
 
 def decl_kind(t, table):
@@ -189,8 +194,8 @@ def _conv(t, j, table):
         if not (isinstance(j, dict) and len(j) == 1):
             raise Bad()
         (tag, inner), = j.items()
-        for c in t.cases:
-            if tag_of(c) == tag:
+        for tg, c in zip(tags_of(t), t.cases):
+            if tg == tag:
                 return "JObj [(%s, %s)]" % (cstr(tag), _conv(c, inner, table))
         raise Bad()
     if k in ("vec", "fixvec", "fixarr"):
